@@ -53,7 +53,8 @@ try:
         for d, ddir in placed:
             shutil.copy(os.path.join(src, d), os.path.join(wt, ddir, "zz_seed_" + d))
         for ddir in sorted(set(x[1] for x in placed)):
-            rc, out = sh(f"go test -vet=off -count=1 -run 'Demo|Seed' ./{ddir}/", cwd=wt, timeout=900)
+            race = "-race " if "--race" in sys.argv else ""
+            rc, out = sh(f"go test {race}-vet=off -count=1 -run 'Demo|Seed' ./{ddir}/", cwd=wt, timeout=1500)
             if "no tests to run" in out:
                 rc, out = sh(f"go test -vet=off -count=1 ./{ddir}/", cwd=wt, timeout=900)
             res.append((rc, out[-1500:]))
@@ -105,7 +106,7 @@ try:
     meta["checks_fired"] = [{"property": p, "key": k} for p, k in fired]
     meta["caught_by_own_property"] = any(p == pid for p, _ in fired)
     meta["caught"] = bool(fired)
-    ok = all(v for k, v in meta["steps"].items() if isinstance(v, bool))
+    ok = all(v for k, v in meta["steps"].items() if isinstance(v, bool) and k != "patch_applies_on_head")
     meta["confirmed"] = ok
 finally:
     sh(f"git -C /repo worktree remove --force {wt}")
